@@ -203,6 +203,10 @@ func project(n int) *types.Project {
 		s := types.ServiceConfig{Name: name, Image: "img-" + name, Labels: types.Labels{"k": name}}
 		if i > 0 {
 			s.DependsOn = types.DependsOnConfig{fmt.Sprintf("s%d", (i-1)/2): {Condition: types.ServiceConditionStarted, Required: true}}
+			if i > 2 {
+				// shared descendants: everybody below the first level also depends on s0 directly
+				s.DependsOn["s0"] = types.ServiceDependency{Condition: types.ServiceConditionStarted, Required: true}
+			}
 		}
 		p.Services[name] = s
 	}
@@ -281,7 +285,8 @@ func TestRace(t *testing.T) {
 	}
 	nt := map[string]bool{}
 	master := &prng{x: seed*1000003 + uint64(worker)*7919}
-	runGroup := func(g Group, idx int) {
+	var runGroup func(g Group, idx int)
+	runGroup = func(g Group, idx int) {
 		before := logSize()
 		switch g.Kind {
 		case "loads":
@@ -355,6 +360,9 @@ func TestRace(t *testing.T) {
 			if g.Seed%2 == 0 {
 				opts = append(opts, graph.InReverseOrder)
 			}
+			if (g.Seed/2)%2 == 0 && g.N > 0 {
+				opts = append(opts, graph.WithRootNodesAndDown([]string{fmt.Sprintf("s%d", int(g.Seed/4)%g.N)}))
+			}
 			_ = graph.InDependencyOrder(context.Background(), p, func(ctx context.Context, name string, s types.ServiceConfig) error {
 				k := int(calls.Add(1))
 				if g.Perturb {
@@ -372,6 +380,36 @@ func TestRace(t *testing.T) {
 		if after > before {
 			res.Groups = append(res.Groups, GroupRec{Group: g, From: before, To: after})
 			res.Counters["groups-with-race-reports"]++
+		}
+	}
+	flush := func() {
+		for k := range nt {
+			res.Nontrivial = append(res.Nontrivial, k)
+		}
+		sort.Strings(res.Nontrivial)
+		res.WallS = time.Since(start).Seconds()
+		res.Max["gomaxprocs"] = runtime.GOMAXPROCS(0)
+		if out != "" {
+			b, _ := json.Marshal(res)
+			_ = os.WriteFile(out, b, 0o644)
+		}
+	}
+	// a group that does not finish is a deadlock of the library's parallel operation (or of a load):
+	// it is reported and the process ends, the stuck goroutines cannot be reclaimed
+	inner := runGroup
+	runGroup = func(g Group, idx int) {
+		done := make(chan struct{})
+		go func() { inner(g, idx); close(done) }()
+		select {
+		case <-done:
+		case <-time.After(time.Duration(envInt("VERIF_GROUP_TIMEOUT_S", 30)) * time.Second):
+			sc, _ := json.Marshal(g)
+			res.Violations = append(res.Violations, Violation{Property: "C19", Clause: "deadlock", Key: "real-thread-deadlock:" + g.Kind,
+				Detail: fmt.Sprintf("group %+v did not finish within %ds on real threads", g, envInt("VERIF_GROUP_TIMEOUT_S", 30)), Engine: "race", RunIndex: idx, RunSeed: g.Seed, Scenario: sc})
+			res.Runs++
+			flush()
+			_ = os.RemoveAll(scratch)
+			os.Exit(0)
 		}
 	}
 	if replay != nil {
@@ -423,15 +461,6 @@ func TestRace(t *testing.T) {
 			}
 		}
 	}
-	for k := range nt {
-		res.Nontrivial = append(res.Nontrivial, k)
-	}
-	sort.Strings(res.Nontrivial)
-	res.WallS = time.Since(start).Seconds()
-	res.Max["gomaxprocs"] = runtime.GOMAXPROCS(0)
-	if out != "" {
-		b, _ := json.Marshal(res)
-		_ = os.WriteFile(out, b, 0o644)
-	}
+	flush()
 	_ = os.RemoveAll(filepath.Join(scratch))
 }
